@@ -156,7 +156,10 @@ def run(tier, seed):
     for c, res in zip(lcases, lres):
         r0 = res["results"][0]
         if r0.get("outcome") != "ok":
-            raise vlib.ToolError("leaf template did not parse: %r" % r0)
+            # a panic / rejection of a plain template is data, not a tool failure
+            v.violation("get_origin template %s: entry point returned %s: %s" % (c["id"], r0.get("outcome"), str(r0.get("msg", r0.get("err")))[:300]), {"files": c["files"]})
+            by_id[c["id"]] = {"kind": "leaf", "files": c["files"]}
+            continue
         runs = [[a, b, p if p is not None else "", o] for (a, b, p, o) in r0["origins"]]
         leaves = [[x[0], x[1] if x[1] is not None else "", x[2]] for x in r0["tree"]["leaf_origins"]]
         leafrecs.append({"id": c["id"], "kind": "leaf", "runs": runs, "leaves": leaves})
